@@ -733,6 +733,13 @@ func readConst(tr *tokenReader) (Const, []string, error) {
 			// export a warning
 			warnings = append(warnings, readError(tk, err.Error()).Error())
 		}
+		bitsize, _ := decodeIntegerType(cons.SimpleType)
+		if bytes.HasPrefix(tk.concrete, []byte("-")) {
+			return cons, warnings, readError(tk, "negative value %s unassignable to %v", string(tk.concrete), cons.SimpleType)
+		}
+		if _, rangeErr := strconv.ParseUint(string(tk.concrete), 0, bitsize); err == nil && rangeErr != nil {
+			return cons, warnings, readError(tk, "%s overflows %v", string(tk.concrete), cons.SimpleType)
+		}
 	case isIntPrimitive(cons.SimpleType):
 		if tk.kind != tokenKindIntegerLiteral {
 			return cons, warnings, readError(tk, "%v unassignable to %v", tk.kind, cons.SimpleType)
@@ -741,6 +748,10 @@ func readConst(tr *tokenReader) (Const, []string, error) {
 		if err != nil {
 			// export a warning
 			warnings = append(warnings, readError(tk, err.Error()).Error())
+		}
+		bitsize, _ := decodeIntegerType(cons.SimpleType)
+		if _, rangeErr := strconv.ParseInt(string(tk.concrete), 0, bitsize); err == nil && rangeErr != nil {
+			return cons, warnings, readError(tk, "%s overflows %v", string(tk.concrete), cons.SimpleType)
 		}
 	case isFloatPrimitive(cons.SimpleType):
 		switch tk.kind {
@@ -773,6 +784,11 @@ func readConst(tr *tokenReader) (Const, []string, error) {
 		// TODO: what guid formats does rainway support?
 		if len(strings.ReplaceAll(s, "-", "")) != 32 {
 			return cons, warnings, readError(tk, "%q has wrong length for guid", s)
+		}
+		for _, c := range strings.ReplaceAll(s, "-", "") {
+			if !(c >= '0' && c <= '9') && !(c >= 'a' && c <= 'f') && !(c >= 'A' && c <= 'F') {
+				return cons, warnings, readError(tk, "%q is not a hexadecimal guid", s)
+			}
 		}
 	case cons.SimpleType == typeString:
 		if tk.kind != tokenKindStringLiteral {
